@@ -642,8 +642,14 @@ func CreateState(filename string, reader *files.Reader, fileOffset int, lineNumb
 }
 
 func (es *SearchEngineState) Copy() *SearchEngineState {
+	// the variables of named loops belong to the copy, like the environment
+	loopStack := es.loopStack.Copy()
+	for i := 0; i < int(loopStack.Size()); i++ {
+		loopState := loopStack.Index(i)
+		loopState.variables = loopState.variables.Copy().Hashmap()
+	}
 	return &SearchEngineState{
-		loopStack:         es.loopStack.Copy(),
+		loopStack:         loopStack,
 		backtrack:         es.backtrack.Copy(),
 		variableStack:     es.variableStack.Copy(),
 		callStack:         es.callStack.Copy(),
